@@ -782,6 +782,32 @@ namespace C13
       out.put("u_def_final", solver->get_def_final());
       solver->done();
       multigrid_hierarchy->done();
+      // float clause for the global dot product with a stated bound (theorem C13.gdotFl_bound): for every reduction order
+      // |dot_double - dot_exact| <= ((1+u)^(n+2+N) - 1) * sum |freq x y|, n = largest local DOF count, N = number of ranks
+      {
+        typedef LAFEM::DenseVector<long double, IndexType> LVec;
+        typedef LAFEM::VectorMirror<long double, IndexType> LMir;
+        Global::Gate<LVec, LMir> gate_ld;
+        gate_ld.convert(gate);
+        LVec xl(nloc), yl(nloc);
+        GlobalSystemVector xa = vec_sol.clone(), ya = vec_rhs.clone();
+        for(Index i(0); i < nloc; ++i)
+        {
+          xl.elements()[i] = (long double)vec_sol.local().elements()[i];
+          yl.elements()[i] = (long double)vec_rhs.local().elements()[i];
+          xa.local().elements()[i] = Math::abs(vec_sol.local().elements()[i]);
+          ya.local().elements()[i] = Math::abs(vec_rhs.local().elements()[i]);
+        }
+        const double d_dbl = vec_sol.dot(vec_rhs);
+        const long double d_ld = gate_ld.dot(xl, yl);
+        const double d_abs = xa.dot(ya);
+        Index nmax = 0u;
+        comm.allreduce(&nloc, &nmax, std::size_t(1), Dist::op_max);
+        const double u = 1.1102230246251565e-16;
+        const double bound = std::expm1(double(nmax + 2u + Index(comm.size())) * std::log1p(u)) * d_abs;
+        const double err = double(std::fabs((long double)d_dbl - d_ld));
+        out.put("b_dot_float_ratio", bound > 0.0 ? err / bound : (err > 0.0 ? 1E+99 : 0.0));
+      }
       out.put("t_sol_nrm", vec_sol.norm2());
       out.put("t_sol_w1", vec_sol.dot(vw1));
       // true residual of the computed solution
